@@ -87,6 +87,8 @@ def formula(t, atoms):
     if k == "empty":
         return z3.BoolVal(False)
     if k == "leaf":
+        if FP._no_interior(t):
+            return z3.BoolVal(False)  # contours with fewer than 3 points cover no sample point
         return atoms.atom_for(t)
     if k == "simplify":
         return formula(t.args[0], atoms)
@@ -103,6 +105,8 @@ def formula(t, atoms):
             return z3.Xor(fa, fb)
         if op == FP.PathOp.REVERSE_DIFFERENCE:
             return z3.And(fb, z3.Not(fa))
+    if k == "xf" and FP._no_interior(t):
+        return z3.BoolVal(False)
     if k in ("stroke", "xf", "c2q"):
         return atoms.atom_for(t)
     raise ValueError(k)
